@@ -2929,7 +2929,7 @@ ORACLES["C20"] = oracle_c20
 
 # ------------------------------------------------------------------------------------------- CLI flag wiring (shared)
 
-def cli_wiring(seed, n_cases, want_enc=None):
+def cli_wiring(seed, n_cases, want_enc=None, force_mode=None):
     """the real CLI with real flags on a file of generated lines vs. the in-process redactor configured through the setters with the
     same values: byte comparison of the outputs.  Catches a flag that does not reach its setter under some flag combination."""
     import tempfile, shutil
@@ -2945,7 +2945,7 @@ def cli_wiring(seed, n_cases, want_enc=None):
         combos = []
         for i in range(10 if want_enc is None else 6):
             c = Cfg(repl=rng.choice(["REDACTED", "zz", "X y", "REDACTED", "r_1"]), n=rng.chance(1, 2), b=rng.chance(1, 2), i=rng.chance(1, 2), w=rng.chance(1, 2))
-            mode = rng.below(3)
+            mode = rng.below(3) if force_mode is None else force_mode
             if mode == 1 and nss:
                 c.eager = (rng.choice(nss).split(".")[0],)
             elif mode == 2:
@@ -2986,10 +2986,10 @@ def cli_wiring(seed, n_cases, want_enc=None):
     return viol, n
 
 
-def with_wiring(fn, want_enc=None):
+def with_wiring(fn, want_enc=None, force_mode=None):
     def wrapped(tables, seed, tier, deep):
         r = fn(tables, seed, tier, deep)
-        v, n = cli_wiring(seed, 40 if (tier == "thorough" or deep) else 12, want_enc)
+        v, n = cli_wiring(seed, 40 if (tier == "thorough" or deep) else 12, want_enc, force_mode)
         if v:
             r["violations"] = result(r["violations"] + v, 0, 0, "", {}, [])["violations"]
             r["stats"]["summary"]["violating_sites"] = len(r["violations"])
@@ -3336,6 +3336,9 @@ def with_soak(pid, fn, enc):
 
 
 ORACLES["C02"] = with_soak("C02", with_wiring(ORACLES["C02"], want_enc=False), False)
+ORACLES["C14"] = with_wiring(ORACLES["C14"], want_enc=False, force_mode=2)
+ORACLES["C15"] = with_wiring(ORACLES["C15"], want_enc=False, force_mode=1)
+ORACLES["C12"] = with_wiring(ORACLES["C12"], want_enc=False, force_mode=0)
 ORACLES["C05"] = with_soak("C05", ORACLES["C05"], False)
 ORACLES["C09"] = with_soak("C09", ORACLES["C09"], True)
 ORACLES["C10"] = with_soak("C10", ORACLES["C10"], True)
